@@ -20,6 +20,25 @@ fn tails(maxlen: usize) -> Vec<String> {
     all
 }
 
+fn shortest_ref(base: &BaseIri<String>, iri: &str) -> Option<String> {
+    let mut alpha: Vec<char> = iri.chars().collect();
+    alpha.extend(['/', '.', '?', '#']);
+    alpha.sort();
+    alpha.dedup();
+    let mut frontier = vec![String::new()];
+    for _ in 0..=5 {
+        let mut next = vec![];
+        for s in &frontier {
+            if is_valid_iri_ref(s) {
+                if let Ok(r) = base.resolve(s.as_str()) { if r.as_str() == iri { return Some(s.clone()); } }
+            }
+            if s.chars().count() < 5 { for c in &alpha { let mut t = s.clone(); t.push(*c); next.push(t); } }
+        }
+        frontier = next;
+    }
+    None
+}
+
 fn main() {
     let only_first = std::env::args().nth(1).map(|s| s == "first").unwrap_or(true);
     let prefixes = ["s:", "s://h"];
@@ -64,6 +83,50 @@ fn main() {
             }
         }
     }}
+    // family 2 (completeness clause): IRIs equal to the base up to query / fragment, with longer queries and
+    // fragments than the tails above reach, bases with an empty path, and non-ASCII characters before the cut
+    let bases2 = ["s://h/a/b/c/d", "s://h/a/b/c/d?q", "s://h/a/b/c/d?q#f", "s://h/a/b/c/d#f", "s://h/a/", "s://h/a/?q", "s://h/", "s://h/?q#f",
+        "s://h", "s://h?q", "s://h#f", "s://h?q#f", "s:", "s:?q", "s:?q#f", "s:#f", "s:a", "s:a?q", "s:/a?q#f", "s:a/b?q",
+        "s://\u{e9}\u{e9}/a", "s://\u{e9}\u{e9}/a?q", "s://h/\u{e9}/\u{fc}/d", "s://h/\u{e9}/\u{fc}/d?q#f", "s:\u{65e5}\u{672c}/\u{8a9e}/d", "s:\u{65e5}\u{672c}/\u{8a9e}/d?\u{e9}"];
+    let suffixes = ["", "?", "?q", "?qq", "?r", "#", "#f", "#ff", "#g", "?q#f", "?qq#ff", "?#", "?q#", "?\u{e9}", "#\u{e9}"];
+    for base_s in bases2 {
+        let Ok(base) = BaseIri::new(base_s.to_string()) else { continue; };
+        let stem = base_s.split(['?', '#']).next().unwrap();
+        for parents in 0..=2u8 {
+            let rel = Relativizer::new(base.as_ref(), parents);
+            for suf in suffixes {
+                let iri_s = format!("{}{}", stem, suf);
+                if !is_absolute_iri_ref(&iri_s) { continue; }
+                n += 1;
+                let r = std::panic::catch_unwind(|| rel.relativize(Iri::new_unchecked(iri_s.as_str())).map(|r| r.as_str().to_string()));
+                let problem = match r {
+                    Err(_) => Some("panic".to_string()),
+                    Ok(None) => {
+                        // None is right only if NO reference resolves to the IRI (RFC 3986: with no authority and an
+                        // empty path, a base with a query cannot reach the same IRI without query): decided by brute
+                        // force over all references of <= 5 characters built from the IRI's characters and "/.?#"
+                        match shortest_ref(&base, &iri_s) {
+                            Some(w) => Some(format!("returned None for an IRI differing from the base only in query/fragment, although {:?} resolves to it", w)),
+                            None => None,
+                        }
+                    }
+                    Ok(Some(r)) => {
+                        let back: String = base.resolve(r.as_str()).map(|i| i.as_str().to_string()).unwrap_or_else(|e| format!("<resolve error {e}>"));
+                        let ups = r.split('/').take_while(|s| *s == "..").count();
+                        if !is_valid_iri_ref(&r) { Some(format!("result {:?} is not a valid IRI reference", r)) }
+                        else if back != iri_s { Some(format!("resolve(base, {:?}) = {:?}", r, back)) }
+                        else if ups > parents as usize { Some(format!("{:?} uses {} parent steps", r, ups)) }
+                        else { None }
+                    }
+                };
+                if let Some(p) = problem {
+                    findings += 1;
+                    println!("{{\"mismatch\":{:?},\"base\":{:?},\"iri\":{:?},\"parents\":{}}}", p, base_s, iri_s, parents);
+                    if only_first { std::process::exit(1); }
+                }
+            }
+        }
+    }
     println!("{{\"ok\":{},\"pairs\":{},\"findings\":{}}}", findings == 0, n, findings);
     if findings > 0 { std::process::exit(1); }
 }
